@@ -157,6 +157,7 @@ class Interp(Run, StmtMixin, ExprMixin, CallMixin, BuiltinMixin, LoopMixin, Spec
         elif r == z3.sat:
             ob.result = "refuted"
             ob.model = self.extract_model(s.model())
+            self._last_model = s.model()
         else:
             ob.result = "unknown"
             ob.reason = s.reason_unknown()
